@@ -18,6 +18,9 @@ CLAIMED = {
  "C05": ("exploration", "stateful property-based testing (proptest op histories with shrinking) of a hostile peer against contract-respecting local calls; libFuzzer target in thorough",
          "Random phase-structured histories (handshake, traffic, close, reconnect; all roles, versions incl. undetermined, options) interleave contract-respecting local calls with valid, boundary-valued, mutated and garbage peer frames under arbitrary chunking. Every call must return (catch_unwind, overflow checks and debug assertions on), every recv call must advance the cursor, event lists stay bounded, every complete frame fed is delivered, reported or answered as a QoS2 duplicate, and after notify_closed a fresh handshake is accepted.",
          "The application model is contract-respecting: ids from acquire/register, an id is released only while the application owns it (or was told to release it on send error), PUBREL only after PUBREC, timers fired only when armed. Frame dispositions are counted per op (lower bound). A wedge inside one library call would hit the watchdog (exit 2).", "DESIGN.md §3 C05"),
+ "C08": ("exploration", "model-based stateful property testing: a set model of in-use identifiers fed only by announced events, compared with the real in-use set after every op",
+         "Random histories of acquire/register/release (0, 1, interior, max; u16 and u32), id-carrying sends with acquired/registered/never-acquired ids, provoked refusals (status, role, version, alias, Receive Maximum, packet size), peer acknowledgements, closes and reconnects. Every NotifyPacketIdReleased must hit an id that is in use; completions, refusals of exchange-initiating sends and closes must release; after every op the verif-hooks in-use set equals the announced history (only a new session may reset it). One deterministic run fills all 65535 u16 ids.",
+         "Exchange ownership and session persistence come from an event-derived application view (scn.rs). A refused PUBREL is not required to release. Peer bytes are not fed between a close request and notify_closed. Known open finding D23 is excluded by construction (counted).", "DESIGN.md §3 C08"),
  "C09": ("exploration", "metamorphic/differential property testing of the stream framer (chunking invariance) with exhaustive 1-/2-cut partitions of short streams",
          "Random streams of valid packets, over-long Remaining Lengths and garbage are cut by random, per-byte and header-targeted partitions; PacketBuilder::feed must agree with an independent reference framer (one result per call, no over-read, resume after a bad length) and a chunk-fed connection must produce the same normalised event trace and final state as a whole-frame-fed one. All 1- and 2-cut partitions of 1000 (thorough 10000) short streams are enumerated.",
          "Trusts refcodec::frame as the reference framer. Runs of consecutive id-release events are compared as multisets (hash-set order). A panic in recv is left to C05.", "DESIGN.md §3 C09"),
